@@ -7,7 +7,7 @@ func init() {
 		budget := 285 * time.Second
 		d := 0
 		if tier == "thorough" {
-			budget, d = 45*time.Minute, 1
+			budget, d = 30*time.Minute, 1
 		}
 		det := func(u Search) Unit { return Search{Sc: detScenario{u.Sc}, Depth: u.Depth} }
 		us := []Unit{StaticScan{},
